@@ -171,7 +171,12 @@ def entry_xy(n, seed, order, layout='c', zero_w=None, nf=None):
     y = 5 + 10 * t + 3 * np.sin(3 * t) + 30 * np.exp(-0.5 * ((t - 0.3) / 0.03) ** 2) + 20 * np.exp(-0.5 * ((t - 0.7) / 0.02) ** 2)
     y = y + rng.normal(0, 0.5, n)
     w = rng.choice([0.0, 0.5, 1.0, 1.0, 2.0], size=n)
-    if order == 'reversed':
+    if order == 'closed':
+        # a closed loop: up and back down, first x == last x, many distinct values (appended cell, round 8)
+        up = np.arange(0, n, 2)
+        idx = np.concatenate([up, np.arange(n - 1 if n % 2 == 0 else n - 2, 0, -2), [0]])[:n]
+        idx[-1] = idx[0]
+    elif order == 'reversed':
         idx = np.arange(n)[::-1]
     elif order == 'shuffled':
         idx = rng.permutation(n)
